@@ -135,7 +135,6 @@ fn cpl<const L: usize>(mode: u8) {
         Some(w) => {
             let real_cap = cap_of(n0 + w);
             assert!(real_cap.is_some() && real_cap.unwrap() <= planned_cap);
-            kani::cover!(w < planned);
             kani::cover!(w == planned);
         }
         None => {
